@@ -67,6 +67,11 @@ func (h *half) signal() {
 // every Write accepts at most that many bytes and returns (n < len, nil).
 var simFrag, simShortWrite int
 
+// simDeadlineErr: every SetDeadline/SetReadDeadline/SetWriteDeadline on a simulated stream is refused
+// with an error and arms nothing (a custom transport's stream, or a socket the peer has already reset).
+var simDeadlineErr bool
+var errDeadlineRefused = errors.New("set deadline: use of closed network connection")
+
 // simConn is one end of a buffered duplex stream (TCP-like: writes never block
 // on the reader).
 type simConn struct {
@@ -216,6 +221,9 @@ func (c *simConn) IsClosed() bool {
 func (c *simConn) LocalAddr() net.Addr  { return tcpAddrOf(c.local) }
 func (c *simConn) RemoteAddr() net.Addr { return tcpAddrOf(c.remote) }
 func (c *simConn) SetDeadline(t time.Time) error {
+	if simDeadlineErr {
+		return errDeadlineRefused
+	}
 	c.mu.Lock()
 	c.rdl, c.wdl = t, t
 	c.Deadlines++
@@ -223,12 +231,18 @@ func (c *simConn) SetDeadline(t time.Time) error {
 	return nil
 }
 func (c *simConn) SetReadDeadline(t time.Time) error {
+	if simDeadlineErr {
+		return errDeadlineRefused
+	}
 	c.mu.Lock()
 	c.rdl = t
 	c.mu.Unlock()
 	return nil
 }
 func (c *simConn) SetWriteDeadline(t time.Time) error {
+	if simDeadlineErr {
+		return errDeadlineRefused
+	}
 	c.mu.Lock()
 	c.wdl = t
 	c.mu.Unlock()
